@@ -75,6 +75,14 @@ def listing(g, n, decorate=True):
             lines += [{"k": "blank"}, {"k": "label", "addr": "%016x" % addr, "name": g.pick(["g", "h", "k.part.0"])}]
         if decorate and g.chance(0.03):
             lines.append({"k": "dots"})
+    # listings of relocatable objects restart their addresses per section: exactly repeated lines occur
+    insts = [l for l in lines if l["k"] == "inst"]
+    if insts and g.chance(0.3):
+        if decorate:
+            lines += [{"k": "blank"}, {"k": "sect", "name": ".text.startup"}, {"k": "blank"},
+                      {"k": "label", "addr": "%016x" % int(insts[0]["addr"], 16), "name": "g"}]
+        k = g.int(1, len(insts))
+        lines += [dict(l) for l in insts[:k]]
     return lines
 
 
